@@ -91,7 +91,9 @@ Do(a) ==
             /\ UNCHANGED <<best, arch, shownK, evals, calls>>
        [] a.op = "evaluate" ->       \* PopulationEvaluator on the current population (a.s = 1: parallel evaluator)
             /\ pop' = [j \in Idx |-> Ind(pop[j].s, F[pop[j].s])]
-            /\ evals' = evals + Len(pop) /\ calls' = calls + Len(pop)
+            \* (a.s = 4: the user's evaluator calls the objective function twice per individual and adds its own probes
+            \*  to the counter; the step adds the individuals it evaluated: reported = invoked either way)
+            /\ LET m == IF a.s = 4 THEN 2 * Len(pop) ELSE Len(pop) IN evals' = evals + m /\ calls' = calls + m
             /\ res' = R("ok", 0)
             /\ UNCHANGED <<best, arch, shownK>>
        [] a.op = "evaluate_missing" -> \* configuration asking for an evaluator id that is not registered, placed
@@ -143,7 +145,7 @@ Acts ==
   \cup {A("as_solutions_mut", i, s) : i \in Idx, s \in Sols}
   \cup {A("as_solutions", 0, 0), A("round_trip", 0, 0)}
   \cup {A("evaluate_with", i, 0) : i \in Idx} \cup {A("set_objective", i, 0) : i \in Idx}
-  \cup {A("evaluate", 0, par) : par \in 0..3} \cup {A("evaluate_missing", 0, pl) : pl \in 0..4}   \* evaluate: 0 = sequential, k = parallel evaluator on k worker threads
+  \cup {A("evaluate", 0, par) : par \in 0..4} \cup {A("evaluate_missing", 0, pl) : pl \in 0..4}   \* evaluate: 0 = sequential, 1..3 = parallel evaluator on k worker threads, 4 = user-written evaluator with counted probes
   \cup {A("evaluate_nested", 0, dp) : dp \in 1..3}
   \cup (IF AllEvaluated THEN {A("update_best", 0, 0)} ELSE {})
   \cup {A("init_run", 0, 0)}
@@ -186,7 +188,8 @@ EvaluateExact ==
   [][ act'.op = "evaluate" =>
         /\ Len(pop') = Len(pop)
         /\ \A j \in Idx : pop'[j].s = pop[j].s /\ pop'[j].o = F[pop[j].s]
-        /\ evals' = evals + Len(pop) /\ calls' = calls + Len(pop) ]_mvars
+        /\ evals' - evals = calls' - calls                 \* reported = invoked
+        /\ calls' - calls = (IF act'.s = 4 THEN 2 ELSE 1) * Len(pop) ]_mvars
 \* C06: the counter moves only with real objective calls made by evaluation steps
 CountOnlyByEvaluate ==
   [][ /\ act'.op \notin {"evaluate", "init_run"} => evals' = evals
